@@ -312,6 +312,16 @@ def overlaps(a, b):
     return a[0] < b[1] and b[0] < a[1]
 
 
+def touches(r, l, source):
+    """Does the rewrite range r touch the physical line l?  A replacement or deletion: the ranges overlap.  An
+    insertion: anywhere from the first column of the line up to its terminator (text inserted there becomes part
+    of the line; at the end of an unterminated last line too)."""
+    if r[0] != r[1]:
+        return overlaps(r, l)
+    unterminated = l[1] == len(source) and not source.endswith(("\n", "\r"))
+    return l[0] <= r[0] < l[1] or (r[0] == l[1] and unterminated)
+
+
 _TOK_CACHE: dict = {}
 
 
@@ -388,7 +398,7 @@ def property_oracle(case, flat, out, status=None) -> list[dict]:
         self_ov = any(overlaps(rs[i], rs[j]) for i in range(len(rs)) for j in range(i + 1, len(rs)))
         dup = any(k2 != key and k2[1] <= key[1] and sorted(set(tx[k2])) == items for k2 in order)
         sched_ov = any(overlaps(r, (f[2], f[3])) for r in rs for f in flat if f[0] <= key[1])
-        ign = any(overlaps(r, l) for r in rs for l in ilines)
+        ign = any(touches(r, l, case["source"]) for r in rs for l in ilines)
         if not (self_ov or dup or sched_ov or ign):
             problem("dropped", f"transaction {key} dropped without a stated reason: {tx[key]}",
                     ranges=[list(r) for r in rs])
@@ -504,11 +514,20 @@ def g_range(r):
     return f"({gz(r[0])}, {gz(r[1])})"
 
 
+def model_ilines(case):
+    """The ignored-line ranges as SchedModel.touches_line expects them: an unterminated last line is handed
+    over with its end moved one past the text (an insertion at the very end of the text touches it)."""
+    src = case["source"]
+    unterminated = bool(src) and not src.endswith(("\n", "\r"))
+    return [(a, b + 1) if unterminated and b == len(src) else (a, b)
+            for (a, b) in case.get("ilines_model", case["ilines"])]
+
+
 def g_case(case, flat, cand) -> str:
     groups = glist(
         [glist([f"({g_range((s, e))}, {gtext(t)}, {gopt(tr, gz)})" for (s, e, t, tr) in g]) for g in case["groups"]])
     exp = glist([f"({gz(g)}, {gz(t)}, {gz(s)}, {gz(e)}, {gtext(n)})" for (g, t, s, e, n) in flat])
-    return (f"(mkCase {glist([g_range(r) for r in case.get('ilines_model', case['ilines'])])} {groups} {exp} "
+    return (f"(mkCase {glist([g_range(r) for r in model_ilines(case)])} {groups} {exp} "
             f"{gtext(case['source'])} {gtext(cand)})")
 
 
